@@ -79,7 +79,7 @@ def run(ctx):
                     bad.append((cm.ymd_of(d), got, pos))
                 pos += 1
         return (bad, pos == py(t.m(sy, 'get_day_count')))
-    table(ctx, R, 'SolarDay::get_index_in_year:lists', [1582, 1900, 2024], doy, lambda y: ([], True), 'day-of-year equals the position in the concatenated month lists and the year length equals their total', str, fn_site(p, 'SolarDay::get_index_in_year'))
+    table(ctx, R, 'SolarDay::get_index_in_year:lists', [100, 1500, 1582, 1900, 2024], doy, lambda y: ([], True), 'day-of-year equals the position in the concatenated month lists and the year length equals their total', str, fn_site(p, 'SolarDay::get_index_in_year'))
 
     # ---- lunar containers on a scenario calendar (a leap year and a common year)
     lichun = CAL.jdn(Y, 2, 4)
